@@ -7,6 +7,7 @@ import (
 	"context"
 	"fmt"
 	"os"
+	"strings"
 	"time"
 
 	"verif/harness/internal/crashfs"
@@ -194,11 +195,13 @@ func c03DiscardReopen(r *hx.Result) error {
 	return nil
 }
 
-// c03SelfTest: two "missing fsync" mutants of the write protocol, simulated at the storage layer (Sync of the tx log /
-// of the commit log degrades to Flush while the workload runs; the recovered store runs on a sound storage).  The oracle
-// must report lost acknowledged txs or a store that does not open; otherwise the run is inconclusive.
+// c03SelfTest: three "missing fsync" mutants of the write protocol, simulated at the storage layer (Sync of the tx log /
+// of the commit log / of the value log degrades to Flush while the workload runs; the recovered store runs on a sound
+// storage).  The recovery oracle must report lost acknowledged txs (for the value log: unreadable VALUES of acknowledged
+// txs) or a store that does not open, and the ordering oracle on the trace must report the missing durability at the
+// acknowledgement; otherwise the run is inconclusive.
 func c03SelfTest(r *hx.Result) error {
-	for _, file := range []string{"tx", "commit"} {
+	for _, file := range []string{"tx", "commit", "val_0"} {
 		scratch := hx.NewResult("C03-selftest", "quick", 1, "")
 		cfg := c03TargetCfg("selftest-missing-fsync-" + file)
 		cfg.NTx = 3
@@ -216,6 +219,16 @@ func c03SelfTest(r *hx.Result) error {
 		r.CountN("selftest.missing-fsync-"+file+".images-flagged", detected)
 		if detected == 0 {
 			r.Inconclusive = append(r.Inconclusive, "self-test: the oracle did not notice a missing fsync of the "+file+" log")
+		}
+		ord := 0
+		for k, n := range scratch.Distribution {
+			if strings.HasPrefix(k, "oraclefail.C03:ordering:acked-tx-") {
+				ord += n
+			}
+		}
+		r.CountN("selftest.missing-fsync-"+file+".ordering-oracle-flagged", ord)
+		if ord == 0 {
+			r.Inconclusive = append(r.Inconclusive, "self-test: the ordering oracle on the trace did not notice a missing fsync of the "+file+" log")
 		}
 	}
 	return nil
